@@ -351,7 +351,7 @@ def check_paths(ob, st: Structure, sib: Siblings, paths: List[BodyPath], r: int)
             continue
         # ---- merge path --------------------------------------------------------------------------------
         merges += 1
-        opaque = [f"{'' if t else 'not '}{c}" for c, t in p.conds if any(type(at).__name__ == "Opaque" for at in (c.left - c.right).atoms())]
+        opaque = [f"{'' if t else 'not '}{c}" for c, t in p.conds if (c.left.has_opaque() or c.right.has_opaque())]
         if opaque:
             ob("C08.2", f"{tag}: merge guarded by a condition the analysis does not model", core.UNDECIDED, where,
                f"{opaque[:2]}: whether this path merges exactly a complete sibling group is not decided")
